@@ -159,12 +159,16 @@ class Prop:
         "to keep case terms small, Tree.format_iter(title=default/False) and Tree.format(join=) are compared with the model as full text, the other observations (titles True/text/'', every start node, system root) as (line count, 61-bit polynomial hash) computed by the same formula on both sides (trees of <= 3 nodes: everything as full text); the oracle always sees the full lines",
     ]
     manifest = dict(
-        text=("Machine-checked theorems (Coq 8.16, no axioms): for ALL forests, start nodes, add_self, title settings and every 4-/6-segment "
-              "style, format_iter of the executable model emits [title] ++ one line per branch node in pre-order, each = prefix ++ rendering; "
-              "the prefix is exactly concat(ancestor segments below the start) ++ own segment; for every style whose ancestor segments share "
-              "one positive width and own segments another (proved for every entry of the generated CONNECTORS table by vm_compute) the "
-              "prefix lengths decode to the relative depths and the depth list decodes to the forest shape; where segments are distinct "
-              "(all table styles except space1..4) the last-sibling and has-children flags are recovered; list style = renderings only. "
+        text=("Machine-checked theorems (Coq 8.16, no axioms): for ALL forests, start nodes (any depth, system root included), add_self, title "
+              "settings (default/False/True/text/'') and every 4-/6-segment style, format_iter of the executable model emits [title] ++ one line "
+              "per branch node in pre-order, each = prefix ++ rendering; the prefix is exactly concat(ancestor segments below the start) ++ own "
+              "segment; the flags used are proved equal to the identity tests of the code (q_is_last of the located context of every member of "
+              "get_parent_list(), of the node itself, q_has_children) for forests with unique node identities; for every style whose ancestor "
+              "segments share one positive width and own segments another (proved for every entry of the generated CONNECTORS table by "
+              "vm_compute, and available for any custom tuple) the prefix LENGTHS decode to the relative depths and the depth list decodes to "
+              "the forest shape (parser round trip, unbounded), also from the joined text of format(); where segments are distinct (all table "
+              "styles except space1..4) the last-sibling flags of every ancestor and of the node, and in 6-segment styles the has-children "
+              "flag, are read back from the characters; list style = renderings only; errors for unknown names / malformed tuples. "
               "Tied to /repo per run by a correspondence check (vm_compute vs. implementation) and an independent decoding oracle."),
         note=("Trusted: Coq kernel + vm_compute; hand-written model theories/Forest/Format.v (tied by the correspondence only); "
               "gen_facts.py for the CONNECTORS table; harness generators/observation.  D35 (list style with title rendered the system root) "
